@@ -95,35 +95,101 @@ func durationGroups(pattern string) (map[int]string, string) {
 	return out, ""
 }
 
-func ruleTabDate(c *Ctx, r *Rep) {
-	calls := c.funcsCalling("time.ParseInLocation")
-	if len(calls) != 1 {
-		r.Undecided("anchor:validity-parser", "", sprintf("expected one function calling time.ParseInLocation, found %d", len(calls)))
-		return
+// validityParser: the function that fills config.CertificateValidity.From/Until from the YAML strings.
+func (c *Ctx) validityParser() *ssa.Function {
+	var out *ssa.Function
+	for _, fn := range c.Funcs {
+		if !strings.HasSuffix(fn.Pkg.Pkg.Path(), "config/v1") {
+			continue
+		}
+		hasFrom, hasUntil := false, false
+		for _, fs := range storesIntoType(c, fn, "config.CertificateValidity") {
+			if fs.field == "From" {
+				hasFrom = true
+			}
+			if fs.field == "Until" {
+				hasUntil = true
+			}
+		}
+		if hasFrom && hasUntil {
+			if out != nil {
+				return nil
+			}
+			out = fn
+		}
 	}
-	var fn *ssa.Function
-	for f := range calls {
-		fn = f
+	return out
+}
+
+// dateParse describes one date-parsing site of the validity parser: the call in the parser, the value parsed,
+// and the layout/location that reach time.ParseInLocation (directly or through a one-call wrapper).
+type dateParse struct {
+	call   *ssa.Call
+	value  ssa.Value
+	layout ssa.Value
+	loc    ssa.Value
+	pos    token.Pos
+}
+
+func dateParses(c *Ctx, fn *ssa.Function) []dateParse {
+	var out []dateParse
+	for _, ci := range callsIn(fn) {
+		call, ok := ci.(*ssa.Call)
+		if !ok {
+			continue
+		}
+		if calleeFullName(ci) == "time.ParseInLocation" {
+			a := ci.Common().Args
+			out = append(out, dateParse{call, a[1], a[0], a[2], ci.Pos()})
+			continue
+		}
+		// wrapper: a module function whose only call is ParseInLocation with one of its parameters as the value
+		f := ci.Common().StaticCallee()
+		if f == nil || !c.InModule(f) || f.Blocks == nil || len(f.Blocks) != 1 {
+			continue
+		}
+		for _, ci2 := range callsIn(f) {
+			if calleeFullName(ci2) != "time.ParseInLocation" {
+				continue
+			}
+			a := ci2.Common().Args
+			for i, prm := range f.Params {
+				if a[1] == ssa.Value(prm) && i < len(ci.Common().Args) {
+					out = append(out, dateParse{call, ci.Common().Args[i], a[0], a[2], ci2.Pos()})
+				}
+			}
+		}
+	}
+	return out
+}
+
+func ruleTabDate(c *Ctx, r *Rep) {
+	fn := c.validityParser()
+	if fn == nil {
+		r.Undecided("anchor:validity-parser", "", "no unique function fills CertificateValidity.From and .Until")
+		return
 	}
 	fk := c.FuncKey(fn)
 	parsedInto := map[string]string{} // result field -> source yaml field
-	for _, ci := range calls[fn] {
-		args := ci.Common().Args
-		pos := c.Pos(ci.Pos())
-		src := fieldLoad(args[1])
+	sites := dateParses(c, fn)
+	if len(sites) < 2 {
+		r.Undecided("shape:"+fk, c.FnPos(fn), sprintf("%d date-parsing sites found in the validity parser, expected 2", len(sites)))
+	}
+	for _, dp := range sites {
+		pos := c.Pos(dp.pos)
+		src := fieldLoad(dp.value)
 		srcName := "?"
 		if src != nil {
 			srcName = src.Name()
 		}
 		layout := ""
-		if k, ok := args[0].(*ssa.Const); ok && k.Value != nil && k.Value.Kind() == constant.String {
+		if k, ok := dp.layout.(*ssa.Const); ok && k.Value != nil && k.Value.Kind() == constant.String {
 			layout = constant.StringVal(k.Value)
 		}
 		r.Check(layout == "2006-01-02", "layout|"+srcName, pos, "layout 2006-01-02 = year-month-day (Go reference time: 01 is the month, 02 the day)", layout)
-		r.Check(isLoadOfGlobalNamed(args[2], "time", "Local"), "location|"+srcName, pos, "time.Local (dates are local midnight)", args[2].String())
+		r.Check(isLoadOfGlobalNamed(dp.loc, "time", "Local"), "location|"+srcName, pos, "time.Local (dates are local midnight)", dp.loc.String())
 		// result stored to which field?
-		call := ci.(*ssa.Call)
-		for _, ref := range *call.Referrers() {
+		for _, ref := range *dp.call.Referrers() {
 			if ex, ok := ref.(*ssa.Extract); ok && ex.Index == 0 {
 				for _, f := range storedFields(ex) {
 					parsedInto[f.Name()] = srcName
